@@ -168,3 +168,31 @@ func Touches(rules []IgRule, path string) bool {
 	}
 	return false
 }
+
+// DirGone reports whether a directory must have vanished altogether: the last
+// rule that decides its own fate selects it (a trailing-slash rule matching it,
+// or a rule matching everything below via "**"), and no negated rule follows
+// that could re-include anything below it.
+func DirGone(rules []IgRule, path string) bool {
+	ps := strings.Split(path, "/")
+	last := -1
+	ex := false
+	for i, r := range rules {
+		if r.Dir && r.matchSegs(ps) {
+			ex = !r.Neg
+			last = i
+		} else if r.Dir && r.matches(ps) {
+			ex = !r.Neg
+			last = i
+		}
+	}
+	if !ex || last < 0 {
+		return false
+	}
+	for _, r := range rules[last+1:] {
+		if r.Neg {
+			return false
+		}
+	}
+	return true
+}
